@@ -5,7 +5,7 @@
    did before those commits (refuting witnesses of the full statements) is recorded in C14_history_before_fixes
    and replayed on the implementation as ordinary corpus cases by harness/props/c14.py. *)
 From Coq Require Import ZArith List Bool Lia Arith PeanoNat.
-From IRV Require Import Base.Exn Gen.C14Gen C14.Model C14.ProofsInfra C14.ProofsApi C14.ProofsPasses C14.ProofsOutputFix.
+From IRV Require Import Base.Exn Gen.C14Gen C14.Model C14.ProofsInfra C14.ProofsApi C14.ProofsPasses C14.ProofsOutputFix C14.PyInfra Gen.C14InfraGen C14.ProofsPyInfra.
 Import ListNotations.
 Local Open Scope nat_scope.
 
@@ -25,6 +25,39 @@ Theorem C14_result_argument_flag_ignored :
   forall p w m incoming, exec_arg p w m incoming = exec Z p w m.
 Proof. reflexivity. Qed.
 Print Assumptions C14_result_argument_flag_ignored.
+
+(* ================================================================= the infrastructure model IS the source:
+   Gen/C14InfraGen.v holds the bodies of PassBase.__call__, Sequential.call, PassManager.call and
+   _FunctionalPassWrapper.call transcribed statement by statement from passes/_pass_infra.py on every run (fail
+   closed); their interpretation (C14/PyInfra.v) equals the hand model used by all theorems of this file. *)
+Theorem C14_passbase_call_translated :
+  forall (St : Type) ip rq e1 en e2 body early steps ps sup inner (w : world St) m arg,
+  arg = VModel m \/ (exists f0, arg = VResult m f0) ->       (* a Model, or a PassResult with ANY incoming flag *)
+  run_method St (mk_self St ip rq e1 en e2 body early steps ps sup inner) passbase_call_body w arg
+  = lift_res St (wrap St ip rq en body w m).
+Proof. exact passbase_call_equiv. Qed.
+Print Assumptions C14_passbase_call_translated.
+
+Theorem C14_sequential_call_translated :
+  forall (St : Type) (run : pterm St -> pfun St) ip rq e1 en e2 body early steps members sup inner (w : world St) m,
+  run_method St (mk_self St ip rq e1 en e2 body early steps (map run members) sup inner) sequential_call_body w (VModel m)
+  = lift_res St (seq_loop St run members w m false).
+Proof. intros. rewrite sequential_call_equiv, seq_loop_f_model. reflexivity. Qed.
+Print Assumptions C14_sequential_call_translated.
+
+Theorem C14_passmanager_call_translated :
+  forall (St : Type) ip rq e1 en e2 body early steps ps sup inner (w : world St) m,
+  run_method St (mk_self St ip rq e1 en e2 body early steps ps sup inner) passmanager_call_body w (VModel m)
+  = lift_res St (mgr_loop St sup steps early w m false).
+Proof. exact passmanager_call_equiv. Qed.
+Print Assumptions C14_passmanager_call_translated.
+
+Theorem C14_functional_call_translated :
+  forall (St : Type) ip rq e1 en e2 body early steps ps sup inner (w : world St) m,
+  run_method St (mk_self St ip rq e1 en e2 body early steps ps sup inner) functional_call_body w (VModel m)
+  = lift_res St (let '(w1, c) := wclone St w m in inner w1 c).
+Proof. exact functional_call_equiv. Qed.
+Print Assumptions C14_functional_call_translated.
 
 (* Sequential: the members run in order, each on the result of the previous one, and the reported flag is the
    OR of the members' flags. *)
